@@ -20,7 +20,7 @@
 //! time, fast loading off, each request issued while the tape is silent between blocks; the
 //! outcome (IX, DE, carry, RAM) must equal the `ld_bytes` model and what the same request gives on a
 //! twin machine that uses fast loading. This also validates the model used by C10.
-use crate::host::RegFile;
+use crate::host::{Machine, RegFile};
 use crate::json::{hex, J};
 use crate::report::{par_map, Ctx, Evidence};
 use crate::rng::Rng;
@@ -177,6 +177,25 @@ struct SysStats {
     sample: Option<J>,
 }
 
+fn run_until_counted(m: &mut Machine, pcs: &[u16], max_frames: usize) -> (RunEnd, u64) {
+    m.dbg().mode = crate::host::DbgMode::Set(pcs.to_vec());
+    m.dbg().last_hit = None;
+    m.emu.set_speed(rustzx_core::EmulationMode::FrameCount(1));
+    let mut frames = 0u64;
+    while (frames as usize) < max_frames {
+        match m.emu.emulate_frames(std::time::Duration::from_secs(1000)) {
+            Ok(r) => {
+                if r.stop_reason == rustzx_core::EmulationStopReason::Breakpoint {
+                    return (RunEnd::Hit(m.dbg().last_hit.unwrap_or(0)), frames);
+                }
+                frames += 1;
+            }
+            Err(e) => return (RunEnd::Error(format!("{:?}", e)), frames),
+        }
+    }
+    (RunEnd::Timeout, frames)
+}
+
 /// one real-time tape: returns number of requests compared
 fn system_case(ctx: &Ctx, case_id: u64, rng: &mut Rng, st: &mut SysStats) {
     let is128 = rng.chance(1, 3);
@@ -190,7 +209,10 @@ fn system_case(ctx: &Ctx, case_id: u64, rng: &mut Rng, st: &mut SysStats) {
         blocks.push(mk_block(flag, &data, rng.chance(4, 5)));
     }
     let mut fill = Rng::fork(ctx.seed ^ 0xC11_5, case_id);
-    let mut rt = tape_machine(is128, false, &mut fill);
+    // the playing machine has the fast-load *setting* on in half of the cases: a playing deck must
+    // still deliver every block on EAR (fast loading is for a stopped deck)
+    let rt_fast_setting = rng.bool();
+    let mut rt = tape_machine(is128, rt_fast_setting, &mut fill);
     let mut fill2 = Rng::fork(ctx.seed ^ 0xC11_5, case_id);
     let mut fl = tape_machine(is128, true, &mut fill2);
     let img = tap_image(&blocks);
@@ -218,7 +240,9 @@ fn system_case(ctx: &Ctx, case_id: u64, rng: &mut Rng, st: &mut SysStats) {
         // real time: pilot + data + slack, in frames
         let frames = (nominal_block_time(b) + 40 * (8100 + 16 * b.len() as u64)) / 69888 + 60;
         issue_request(&mut rt, &req);
-        let end_rt = run_until(&mut rt, &RET_POINTS, frames as usize);
+        let clock_before = rt.clock() as u64;
+        let (end_rt, frames_rt) = run_until_counted(&mut rt, &RET_POINTS, frames as usize);
+        let elapsed_rt = (frames_rt * rt.frame_len() as u64 + rt.clock() as u64).saturating_sub(clock_before);
         issue_request(&mut fl, &req);
         let end_fl = run_until(&mut fl, &RET_POINTS, 50);
         st.requests += 1;
@@ -234,6 +258,18 @@ fn system_case(ctx: &Ctx, case_id: u64, rng: &mut Rng, st: &mut SysStats) {
                 case(info),
             );
             return;
+        }
+        // a block that was loaded to its end has been on EAR for its whole duration
+        if model.carry && req.load && model.consumed >= b.len().saturating_sub(1) {
+            let on_ear = nominal_block_time(b) - SECOND;
+            if elapsed_rt * 100 < on_ear * 95 {
+                ctx.violation(
+                    "c11-sys-block-not-on-ear",
+                    &format!("the playing deck (fast-load setting {}) served a {}-byte block in {} T although pilot, sync and data last {} T on EAR", if rt_fast_setting { "on" } else { "off" }, b.len(), elapsed_rt, on_ear),
+                    case(info),
+                );
+                return;
+            }
         }
         let o_rt = observe_at_ret(&mut rt);
         let o_fl = observe_at_ret(&mut fl);
